@@ -265,3 +265,6 @@ def replay(args, meta):
                 acts, drains, why, trace, changed = a2, d2, why2, tr2, True
                 break
     return False, classify(trace, why), f'{why}; minimal schedule (action, drain, inside, value) = {trace}'
+
+
+sched.freeze()
